@@ -29,11 +29,13 @@ _edge_cache = {}
 
 def edge_dominated(f, a, b):
     """set of blocks that can only be reached from entry through the edge a->b."""
-    k = (id(f), a, b)
-    if k not in _edge_cache:
+    # cached on the function object itself (ids of dead objects are reused when several properties run in one process)
+    c = f.__dict__.setdefault("_edge_dom_cache", {})
+    k = (a, b)
+    if k not in c:
         without = reach_from(f, [0], avoid_edges=[(a, b)])
-        _edge_cache[k] = f.reachable_blocks() - without
-    return _edge_cache[k]
+        c[k] = f.reachable_blocks() - without
+    return c[k]
 
 
 def block_dominated_strict(f, a):
